@@ -17,6 +17,9 @@ ASSUMPTIONS = [
     "process zone changed only through os.environ['TZ'] + time.tzset() and restored",
     "tzinfos callables are pure functions of (name, offset)",
     "UnknownTimezoneWarning is observed through warnings.catch_warnings(record=True)",
+    "a tzinfos value that is a MALFORMED TZ string is not 'a TZ string' in the sense of this property: such calls are generated, "
+    "must raise exactly what the Lean model of tz.tzstr raises (ValueError), and are counted (tzinfos_malformed_tzstring_calls); "
+    "that the exception is not a ParserError is C14's known finding D-C14-tzinfos-bad-tzstring",
     "a failing oracle case is KNOWN only if the implementation's answer equals the Lean model's answer on it and the observed "
     "result is exactly the listed symptom; anything else inside a known class is a VIOLATION",
 ]
@@ -121,8 +124,11 @@ def tzcascade_requests(ctx, items):
             if data[0] == "o":
                 k = int(data[1:]); z = L.tzobjs()[k]; lab = "obj %d" % k
             else:
-                s = "".join(chr(int(x)) for x in data[1:].split("."))
-                z = tz.tzstr(s); lab = "str %s" % data[1:]
+                # TZ string: names from the Lean model of tz.tzstr (parser.assignstr), not from the implementation's object
+                second.append("parser.assignstr %s [%d,%d,%d,%d,%d,%d,%d] %s" % (data[1:], naive.year, naive.month, naive.day,
+                              naive.hour, naive.minute, naive.second, naive.microsecond, nm))
+                where.append((i, "str %s" % data[1:]))
+                continue
             try:
                 second.append("parser.assign %s %s %s" % (L.optname(naive.replace(tzinfo=z).tzname()),
                                                          L.optname(naive.replace(tzinfo=z, fold=1).tzname()), nm))
@@ -132,7 +138,9 @@ def tzcascade_requests(ctx, items):
             where.append((i, lab))
     if second:
         for (i, lab), r in zip(where, ctx.driver(second)):
-            if isinstance(lab, datetime.datetime):      # process zone: "utc" | "local f" -> what a tzlocal built now says
+            if r.startswith("err "):
+                out[i] = r
+            elif isinstance(lab, datetime.datetime):      # process zone: "utc" | "local f" -> what a tzlocal built now says
                 out[i] = "ok " + (L.local_desc(lab, int(r.split()[2])) if r.startswith("ok local ") else r[3:])
             else:
                 out[i] = "ok %s %s" % (lab, r[3:])
@@ -254,6 +262,11 @@ def oracle(ctx):
                     ctx.count("expected_" + exp.split()[1])
                 else:
                     ok = ans.startswith("ok ") and raw.replace(tzinfo=None, fold=0) == exp
+                if not ok and ans == "err ValueError" and L.model_answers(ctx, [c])[0] == ans:
+                    # a MALFORMED TZ string among the tzinfos values (the Lean model of tz.tzstr rejects it too): not "a TZ
+                    # string" in the sense of this property; the escaping ValueError is C14's finding D-C14-tzinfos-bad-tzstring
+                    ctx.count("tzinfos_malformed_tzstring_calls")
+                    continue
                 if not ok and not (ans == "err OverflowError" and isinstance(exp, datetime.datetime)):
                     ctx.violation("default fill-in / clip / weekday shift: expected %s" % (exp if isinstance(exp, str) else exp.isoformat()),
                                   c.describe(), {"impl": ans, "fields": fields, "weekday": wd})
